@@ -53,9 +53,19 @@ class EcoreUtils(object):
 
 
 def _stands_for(value, obj):
-    # a reference may hold an object through a (resolved) proxy
-    return value is obj or (value is not None and
-                            getattr(value, '_wrapped', None) is obj)
+    # a reference may hold an object through a proxy; one that nobody has
+    # followed yet is followed now: whether it names `obj` decides if the
+    # other end has to be released
+    if value is obj:
+        return True
+    if isinstance(value, EProxy):
+        if not value.resolved:
+            try:
+                value.force_resolve()
+            except Exception:
+                return False
+        return value._wrapped is obj
+    return False
 
 
 class PyEcoreValue(object):
